@@ -294,7 +294,11 @@ class ExplorerScriptSsbCompiler:
     ) -> dict[str, ExplorerScriptMacro]:
         """Updates path information of all of the macros. See the field descriptions for more details"""
         for macro in macros.values():
-            macro.included__absolute_path = subfile_path
+            if macro.included__absolute_path is None:
+                macro.included__absolute_path = subfile_path
+            # Macros which the sub-file itself imported from other files keep the path of the file that defines them.
             if basefile_path is not None:
-                macro.included__relative_path = os.path.relpath(subfile_path, os.path.dirname(basefile_path))
+                macro.included__relative_path = os.path.relpath(
+                    macro.included__absolute_path, os.path.dirname(basefile_path)
+                )
         return macros
